@@ -21,6 +21,7 @@ def dropS (s : String) (n : Nat) : String := String.ofList (s.toList.drop n)
 structure Op where
   name : String
   args : List Nat
+  raw : List String := []          -- the arguments as written (`pexec`: the first one is the host list `h-h-h`)
   deriving Inhabited
 
 inductive QEv where
@@ -36,6 +37,7 @@ structure Must where
 structure D where
   s : St
   progs : List (List Op)
+  ptask : Bool := false                    -- `M:ptask`: host model ptask_L07 (every execution is an L07Action: `pexecStart`)
   slots : List ((Nat × Nat) × Nat) := []
   opAct : List ((Nat × Nat) × Nat) := []
   q : List QEv := []
@@ -58,7 +60,13 @@ def parseOp (t : String) : Option Op :=
   | [] => none
   | n :: args =>
     let as := args.map (fun x => (x.toNat?).getD 0)
-    some { name := n, args := as }
+    some { name := n, args := as, raw := args }
+
+/-- host list of a `pexec`/`ipexec` op: `<h>[-<h>]*` -/
+def opHosts (op : Op) : List Nat :=
+  match op.raw with
+  | h :: _ => (h.splitOn "-").filterMap String.toNat?
+  | [] => []
 
 /-- parse the case: hosts of actors, programs, routes -/
 def parseCase (q : List String) : Option (List Nat × List (List Op) × List ((Nat × Nat) × List Nat)) :=
@@ -189,14 +197,24 @@ def handleQ (d : D) (e : QEv) : D :=
         let ids := sls.filterMap (fun sl => lookup d.slots (a, sl))
         if ids.isEmpty then { d with imm := d.imm ++ [(a, "noslot")] } else setS d (waitAny d.s a ids)
       | "exec", h :: _, 0 =>
-        let (s, id) := execStart d.s a h
+        let (s, id) := if d.ptask then pexecStart d.s a [h] else execStart d.s a h
         setS { d with opAct := ((a, k), id) :: d.opAct } s
+      | "pexec", _, 0 =>
+        let (s, id) := pexecStart d.s a (opHosts op)
+        setS { d with opAct := ((a, k), id) :: d.opAct } s
+      | "pexec", _, 1 =>
+        match lookup d.opAct (a, k) with
+        | none => fail d (.disagree s!"mid-without-start a{a}.{k}")
+        | some id => setS d (waitOn d.s a id)
+      | "ipexec", _ :: _ :: sl :: _, 0 =>
+        let (s, id) := pexecStart d.s a (opHosts op)
+        setS { d with opAct := ((a, k), id) :: d.opAct, slots := ((a, sl), id) :: d.slots, imm := d.imm ++ [(a, "ok")] } s
       | "exec", _, 1 =>
         match lookup d.opAct (a, k) with
         | none => fail d (.disagree s!"mid-without-start a{a}.{k}")
         | some id => setS d (waitOn d.s a id)
       | "iexec", [h, _, sl], 0 =>
-        let (s, id) := execStart d.s a h
+        let (s, id) := if d.ptask then pexecStart d.s a [h] else execStart d.s a h
         setS { d with opAct := ((a, k), id) :: d.opAct, slots := ((a, sl), id) :: d.slots, imm := d.imm ++ [(a, "ok")] } s
       | "sleep", _, 0 =>
         let (s, id) := sleepStart d.s a
@@ -222,8 +240,8 @@ def applyFault (d : D) (on isHost : Bool) (idx : Nat) (date : String) : D :=
 def allowedKinds (d : D) (a : Nat) (op : Op) : List String :=
   match op.name with
   | "put" | "get" | "sendto" => ["ok", "net"]
-  | "exec" => ["ok", "host"]
-  | "sleep" | "iput" | "iget" | "dput" | "iexec" => ["ok"]
+  | "exec" | "pexec" => ["ok", "host"]
+  | "sleep" | "iput" | "iget" | "dput" | "iexec" | "ipexec" => ["ok"]
   | "test" => ["true", "false", "noslot"]
   | "wait" =>
     match op.args with
@@ -369,7 +387,7 @@ def procLine (d : D) (toks : List String) : D :=
           | _, _ => if r == "noslot" then d else fail d (.disagree s!"a{a} op {k} ({op.name}) returned without a simcall")
         else
         -- model agreement
-        let nonBlocking := ["iput", "iget", "dput", "iexec", "test"].contains op.name || r == "noslot"
+        let nonBlocking := ["iput", "iget", "dput", "iexec", "ipexec", "test"].contains op.name || r == "noslot"
         if nonBlocking then
           if d.imm.contains (a, r) then { d with imm := removeFirst d.imm (· == (a, r)) }
           else fail d (.disagree s!"a{a} op {k} returned {r}, model expects {(d.imm.filter (·.1 == a)).map (·.2)}")
@@ -403,6 +421,9 @@ def procLine (d : D) (toks : List String) : D :=
       if failed && ! hostIsOff then fail d (.monfail s!"a{a} terminated with failed=true but its host never failed")
       else
         let mw := (d.s.actors a).wannadie
+        -- an actor whose simcall was answered and whose host is turned off later in the SAME scheduling round is killed
+        -- before it resumes: it never sees that answer (there is no `ret` line), only its on_exit(failed = true)
+        let d := if failed then { d with pend := d.pend.filter (fun p => p.1 != a) } else d
         if mw != failed then fail d (.disagree s!"a{a} on_exit(failed={f}) but the model says wannadie={mw}")
         else if ! failed && (d.progs.getD a []).length != (d.returned.filter (·.1 == a)).length then
           fail d (.disagree s!"a{a} terminated normally before the end of its program")
@@ -489,7 +510,7 @@ def judge (q a : List String) : Verdict :=
   match parseCase q with
   | none => .bad
   | some (hosts, progs, routes) =>
-    let d0 : D := { s := init hosts (mkRoute routes), progs := progs }
+    let d0 : D := { s := init hosts (mkRoute routes), progs := progs, ptask := q.contains "M:ptask" }
     let lines := splitBar a
     -- a crash ends the log: `... | CRASH 6 msg`
     let crashed := lines.any (fun l => l.head? == some "CRASH" || l.head? == some "HANG")
